@@ -242,3 +242,15 @@ Theorem replace_ignores_data_coding lay u m dc :
   enc_field lay u FShortMsg (VShort m)
   = enc_field lay u FShortMsg (VShort {| sm_dflt := sm_dflt m; sm_dc := dc; sm_udh := sm_udh m; sm_msg := sm_msg m |}).
 Proof. intros H. cbn [enc_field]. unfold prepare. rewrite H. reflexivity. Qed.
+
+(* ------------------------------------------------------------ histories *)
+(* the result of a call does not depend on the calls made before or after it — whatever they were and however they ended *)
+Theorem history_free pre c post : nth_error (run_calls (pre ++ c :: post)) (List.length pre) = Some (run_call c).
+Proof.
+  unfold run_calls. rewrite map_app. cbn [map].
+  rewrite nth_error_app2 by (rewrite map_length; lia). rewrite map_length, Nat.sub_diag. reflexivity.
+Qed.
+(* in particular: the same value marshalled before and after any failing call gives the same octets *)
+Theorem sandwich_same lay vs bad :
+  exists r, run_calls [(lay, vs, None); bad; (lay, vs, None)] = [r; run_call bad; r].
+Proof. eexists. reflexivity. Qed.
